@@ -18,11 +18,12 @@ func vpStream(k, bmax int) (pkts [][]byte, types []uint16, bodies [][]byte) {
 	return
 }
 
-// vpExpectPackets reads k packets with readMessage and compares them with the originals,
-// then expects the transport's end-of-stream to surface as an error.
+// vpExpectPackets reads k packets through Tunnel.Read (readMessage + readHeader) and compares them
+// with the originals, then expects the transport's end-of-stream to surface as an error.
 func vpExpectPackets(tr *vpTransport, types []uint16, bodies [][]byte, label string) {
+	tun := &Tunnel{transportIn: tr, transportOut: tr}
 	for i := range types {
-		pt, n, msg, err := readMessage(tr)
+		pt, n, msg, err := tun.Read()
 		vpAssert(err == nil, label+"-packet-is-delivered")
 		if err != nil {
 			return
@@ -33,7 +34,7 @@ func vpExpectPackets(tr *vpTransport, types []uint16, bodies [][]byte, label str
 		vpAssert(n == len(bodies[i])+8, label+"-size-preserved")
 		vpAssert(vpEqBytes(msg, bodies[i]), label+"-body-preserved")
 	}
-	_, _, _, err := readMessage(tr)
+	_, _, _, err := tun.Read()
 	vpAssert(err != nil, label+"-end-of-stream-is-an-error")
 }
 
@@ -84,6 +85,31 @@ func VP_C08_coalesce() {
 	vpExpectPackets(tr, types, bodies, "coalesce")
 }
 
+//vp:property C08
+//vp:set k 2 3
+//vp:set bmax 1 2
+//vp:set cuts 2 3
+//vp:set maxpaths 200000 400000
+//vp:bounds the byte stream of k packets (symbolic types, bodies 0..bmax symbolic bytes) delivered in cuts+1 transport reads cut at every combination of `cuts` strictly increasing positions of the stream, independent of the packet boundaries (so a read may end inside a header, carry the end of one packet and the start of the next, or several whole packets)
+func VP_C08_segments() {
+	pkts, types, bodies := vpStream(vpParam("k"), vpParam("bmax"))
+	var stream []byte
+	for _, p := range pkts {
+		stream = append(stream, p...)
+	}
+	var segs [][]byte
+	last := 0
+	ncuts := vpParam("cuts")
+	for i := 0; i < ncuts; i++ {
+		c := vpIntRange("cut"+strconv.Itoa(i), last+1, len(stream)-(ncuts-i))
+		segs = append(segs, stream[last:c:c])
+		last = c
+	}
+	segs = append(segs, stream[last:])
+	tr := &vpTransport{in: segs}
+	vpExpectPackets(tr, types, bodies, "segments")
+}
+
 //vp:property C08 C06 C10
 //vp:bounds one 5000-byte packet (symbolic type; symbolic first, middle, last payload bytes, rest constant) delivered in exactly two reads cut at 100, 3000, 4095, 4096 (first fragment fits the 4096-byte scratch buffer, the whole packet does not)
 func VP_C08_split2_big() {
@@ -119,7 +145,7 @@ func VP_C08_bigfrag() {
 func VP_C08_unframeable() {
 	data := vpBytes("data", vpParam("n"))
 	tr := &vpTransport{in: [][]byte{data}}
-	pt, n, msg, err := readMessage(tr)
+	pt, n, msg, err := (&Tunnel{transportIn: tr, transportOut: tr}).Read()
 	if err == nil {
 		vpReach("framed")
 		// whatever is returned as a packet is what the header describes
